@@ -265,7 +265,7 @@ class C20(Check):
     def _budget(self, tier):
         q = tier == 'quick'
         return {
-            'ws_clean': 4,
+            'ws_clean': 8,
             'ws_line': (NL_WS // 2) * 2 if q else NL_WS * 2,
             'ws_call': NC_WS * 2,
             'ws_natural': len(WS_NATURAL) * 2,
@@ -289,12 +289,15 @@ class C20(Check):
             n, m, it = RUNGS[c['rung']]
             cfg = {'method': c['method'], 'init': list(INIT9[(i * 5 + 1) % NINIT]), 'entry': i,
                    'scale': {'rung': c['rung'], 'nobj': n, 'npix': m, 'niter': it, 'nkeep': 3 if c['outcome'] == 'nkeep_too_small' else 4,
-                             'nonnegative': c['nonnegative'], 'object': c['object'], 'flux': c['flux'], 'seed': 100 + i}}
+                             'nonnegative': c['nonnegative'], 'object': c['object'], 'flux': c['flux'],
+                             'verbose': c['rung'] in ('tiny', 'small') and i % 3 == 0, 'seed': 100 + i}}
             fault = {'mode': 'none'} if c['outcome'] == 'none' else {'mode': 'natural', 'natural': c['outcome']}
             return {'entry': 'ti', 'cfg': cfg, 'bystanders': c['bystanders'], 'fault': fault}
         if cls.startswith('ws'):
             if cls == 'ws_clean':
-                return {'entry': 'ws', 'rescore': bool(i % 2), 'calib': ENTRY_CALIB[(i * 5 + 1) % len(ENTRY_CALIB)], 'fault': {'mode': 'none'}}
+                # the list of fields of the survey has ~10^5-10^6 rows, the fixture of the other classes three
+                return {'entry': 'ws', 'rescore': bool(i % 2), 'calib': ENTRY_CALIB[(i * 5 + 1) % len(ENTRY_CALIB)], 'fault': {'mode': 'none'},
+                        'nfields': [3, 3, 1, 1, 20000, 20000, 100000, 100000][i % 8]}
             if cls == 'ws_line':
                 k = (i // 2) * (2 if q else 1)
                 return {'entry': 'ws', 'rescore': bool(i % 2), 'calib': ENTRY_CALIB[(i // 2) % len(ENTRY_CALIB)], 'fault': {'mode': 'line', 'index': k, 'exc': EXC_NAMES[k % NEXC]}}
@@ -302,7 +305,7 @@ class C20(Check):
                 k = i // 2
                 return {'entry': 'ws', 'rescore': bool(i % 2), 'calib': ENTRY_CALIB[(i // 2 + 5) % len(ENTRY_CALIB)], 'fault': {'mode': 'call', 'index': k, 'exc': EXC_NAMES[(k + 1) % NEXC]}}
             return {'entry': 'ws', 'rescore': bool(i % 2), 'calib': ENTRY_CALIB[(i // 2 + 3) % len(ENTRY_CALIB)],
-                    'fault': {'mode': 'natural', 'natural': WS_NATURAL[(i // 2) % len(WS_NATURAL)]}}
+                    'fault': {'mode': 'natural', 'natural': WS_NATURAL[(i // 2) % len(WS_NATURAL)]}, 'nfields': [3, 20000][(i // 2) % 2]}
         ncfg = 2 if q else 8
 
         def cfg(j):
@@ -326,20 +329,21 @@ class C20(Check):
         return {'entry': 'ti', 'cfg': c, 'fault': {'mode': 'natural', 'natural': TI_NATURAL[i % nn]}}
 
     # ------------------------------------------------------------------ fixtures
-    def _ws_dir(self):
+    def _ws_dir(self, nfields=3):
         from astropy.io import fits
         d = os.path.join(self.workdir, 'resolve')
         if os.path.isdir(d):
             shutil.rmtree(d)
         os.makedirs(d)
         # the columns the real sdss_score reads (natural failure 'score_real': no per-field files exist)
-        a = np.zeros(3, dtype=[('RUN', 'i4'), ('CAMCOL', 'i4'), ('FIELD', 'i4'), ('SCORE', 'f4'), ('RERUN', 'S3'),
+        a = np.zeros(nfields, dtype=[('RUN', 'i4'), ('CAMCOL', 'i4'), ('FIELD', 'i4'), ('SCORE', 'f4'), ('RERUN', 'S3'),
                                ('PHOTO_STATUS', 'i4'), ('PSP_STATUS', 'i4', (5,)), ('PSF_FWHM', 'f4', (5,)),
                                ('SKYFLUX', 'f4', (5,)), ('XBIN', 'i4'), ('YBIN', 'i4'), ('IMAGE_STATUS', 'i4', (5,)),
                                ('SUN_ANGLE', 'f4'), ('CALIB_STATUS', 'i4', (5,))])
-        a['RUN'] = [94, 94, 125]
-        a['CAMCOL'] = [1, 2, 3]
-        a['FIELD'] = [12, 13, 14]
+        k = np.arange(nfields)
+        a['RUN'] = np.where(k % 3 < 2, 94, 125) + 10 * (k // 900)
+        a['CAMCOL'] = k % 3 + 1 + 3 * ((k // 450) % 2)
+        a['FIELD'] = 12 + k % 3 + 3 * ((k // 3) % 150)
         a['RERUN'] = '301'
         a['XBIN'] = a['YBIN'] = 1
         fits.HDUList([fits.PrimaryHDU(), fits.BinTableHDU(a)]).writeto(os.path.join(d, 'window_flist.fits'))
@@ -542,7 +546,7 @@ class C20(Check):
         out.count('ws_runs')
 
         def factory():
-            d = self._ws_dir()
+            d = self._ws_dir(case.get('nfields', 3))
             os.environ['PHOTO_RESOLVE'] = d
             os.environ['PHOTO_CALIB'] = case['calib']
             self._stub.fail = False
@@ -633,7 +637,7 @@ class C20(Check):
             par = os.path.join(w, 'in.par')
             if scale:
                 dump = self._scale_inputs(w, par, cfg, variant)
-                return lambda: S1.template_input(par, dump, flux=scale['flux'])
+                return lambda: S1.template_input(par, dump, flux=scale['flux'], verbose=scale.get('verbose', False))
             if variant != 'par_missing':
                 self._par(par, cfg['method'], variant)
             dump = os.path.join(w, 'dump.pkl') if variant != 'dump_unwritable' else os.path.join(w, 'no', 'such', 'dir', 'dump.pkl')
@@ -666,9 +670,12 @@ class C20(Check):
                     saved_backend = matplotlib.rcParams['backend']
                     matplotlib.rcParams['backend'] = 'module://pydl_verif_backend_that_is_not_installed'
                     out.count('ti_runs_with_unloadable_configured_backend')
+                from astropy import log as alog
+                saved_level = alog.level
                 try:
                     before, after, events, exc, fp = self._monitored(self.ti_codes, func, fault, self.solver_codes if scale else None)
                 finally:
+                    alog.setLevel(saved_level)          # verbose=True leaves the logger at DEBUG
                     if saved_plt is not None:
                         S1.plt = saved_plt
                     if saved_backend is not None:
